@@ -455,6 +455,23 @@ def check(rep, pid, tier, seed):
         rep.violation("C18 " + p, dict(kind="perturb"), key=p[:40])
     rep.traces += 40
     rep.evaluations += 41
+    # ---- extended coverage: the index algebra of smooth_state (Smooth.tla); a disagreement is MODEL-DRIFT, not a violation of C18
+    from . import smooth
+    scfgs = smooth.model(rep, tier)
+    if tier == "quick":
+        scfgs = [c for i, c in enumerate(scfgs) if (i + seed) % 4 == 0]
+    sch = [[(n, c) for n, c in enumerate(scfgs)][i::16] for i in range(16)]
+    ndrift = 0
+    for k, status, out in pool.run_tasks(smooth.replay_chunk, sch, init=filt._imports, task_timeout=900):
+        if status != "done":
+            rep.machinery("smooth_state replay chunk %s: %s" % (status, str(out)[:300]))
+            continue
+        for n, p in out:
+            ndrift += 1
+            rep.model_drift(p)
+    rep.extra["smooth_state_extended_coverage"] = dict(configurations_replayed=len(scfgs), disagreements=ndrift,
+                                                      note="index algebra of smooth_state against Smooth.tla; not a clause of C18: a disagreement is reported as MODEL-DRIFT")
+    rep.traces += len(scfgs)
     rep.rule = ("cases = ordered pairs of tables (grid pair x column-set pair x signal pair) enumerated by TLC and replayed on the real functions; "
                 "distinct = distinct pair; non-trivial = every pair (each exercises index rule, swap rule and interpolation differently); "
                 "plus 4321 angles x 7 argument forms and 40 perturbation round trips")
